@@ -35,9 +35,56 @@ Theorem C02_tcp_parse_never_panics : forall d s, tcp_parse d <> TPanic s.
 Proof. exact tcp_parse_no_panic. Qed.
 
 (* the option loop always terminates within the stated fuel *)
-Theorem C02_tcp_option_walk_terminates : forall fuel d n,
-  (length d <= fuel)%nat -> tcp_opts fuel d n <> Err OUT_OF_FUEL.
+Theorem C02_tcp_option_walk_terminates : forall fuel d,
+  (length d <= fuel)%nat -> snd (tcp_opts fuel d) <> OUT_OF_FUEL.
 Proof. exact tcp_opts_fuel. Qed.
+
+(* hdr.Options for EVERY option area, with no bound on the number of entries: the
+   executable walk returns exactly the entries (kind, length - in order, the entry of a
+   failing iteration included) and the error of the inductive characterisation
+   [opt_walk], which determines both *)
+Theorem C02_tcp_option_list_is_exactly_the_walk : forall fuel d os c,
+  (length d <= fuel)%nat -> (tcp_opts fuel d = (os, c) <-> opt_walk d os c).
+Proof. exact tcp_opts_walk_iff. Qed.
+
+Theorem C02_tcp_option_walk_determines_list_and_error : forall d os1 c1 os2 c2,
+  opt_walk d os1 c1 -> opt_walk d os2 c2 -> os1 = os2 /\ c1 = c2.
+Proof. exact opt_walk_functional. Qed.
+
+(* at most one entry per option byte - whatever the fuel *)
+Theorem C02_tcp_option_count_at_most_option_bytes : forall fuel d,
+  (length (fst (tcp_opts fuel d)) <= length d)%nat.
+Proof. exact tcp_opts_count. Qed.
+
+(* a run of Nops of ANY length adds one entry per Nop and leaves the rest of the walk alone;
+   End-of-list after such a run stops the walk whatever follows *)
+Theorem C02_tcp_nop_run_of_any_length : forall k tail os c,
+  opt_walk tail os c -> opt_walk (repeat 1%N k ++ tail) (repeat (1%N, 1%N) k ++ os) c.
+Proof. exact opt_walk_nops. Qed.
+
+Theorem C02_tcp_nop_run_then_end_of_list : forall k rest,
+  opt_walk (repeat 1%N k ++ 0%N :: rest) (repeat (1%N, 1%N) k ++ [(0%N, 1%N)]) 0.
+Proof. exact opt_walk_nops_eol. Qed.
+
+(* the parser, for every segment: Options holds exactly the walk over
+   data[20:DataOffset*4] when the fixed header and the data offset are accepted and is
+   empty otherwise; never more entries than option bytes - at most 40, every data
+   offset, every option layout *)
+Theorem C02_tcp_parsed_options_are_the_walk : forall d h e,
+  tcp_parse d = THdr h e -> 20 <= zlen d -> 5 <= tcp_off d -> tcp_off d * 4 <= zlen d ->
+  opt_walk (tcp_optbytes d) (t_opts h) e.
+Proof. exact tcp_parse_opts_walk. Qed.
+
+Theorem C02_tcp_no_options_outside_accepted_header : forall d h e,
+  tcp_parse d = THdr h e -> (zlen d < 20 \/ tcp_off d < 5 \/ zlen d < tcp_off d * 4) ->
+  t_opts h = [] /\ e <> 0.
+Proof. exact tcp_parse_opts_outside. Qed.
+
+Theorem C02_tcp_parsed_options_at_most_40 : forall d h e,
+  tcp_parse d = THdr h e ->
+  zlen (t_opts h) <= Z.max 0 ((t_off h - 5) * 4) /\
+  (wf_bytes d = true -> zlen (t_opts h) <= 40).
+Proof. exact tcp_parse_opts_count. Qed.
 
 (* the two formerly fatal layouts are rejected with an error *)
 Theorem C02_tcp_short_segment_is_error : forall d,
@@ -49,8 +96,8 @@ Theorem C02_tcp_lone_option_kind_is_error : forall d,
   exists h, tcp_parse d = THdr h 5.
 Proof. exact tcp_parse_lone_kind. Qed.
 
-Theorem C02_tcp_option_error_exactly_when : forall fuel d n,
-  (length d <= fuel)%nat -> (tcp_opts fuel d n = Err 5 <-> lone_kind d).
+Theorem C02_tcp_option_error_exactly_when : forall fuel d,
+  (length d <= fuel)%nat -> (snd (tcp_opts fuel d) = 5 <-> lone_kind d).
 Proof. exact tcp_opts_lone_iff. Qed.
 
 Theorem C02_udp_parse_never_panics : forall d s, udp_parse d <> Panic s.
@@ -255,6 +302,31 @@ Proof.
     match goal with H : lone_kind (skipn _ _) |- _ => cbn in H; inversion H end.
 Qed.
 
+(* the bound of 40 entries is attained (data offset 15, 40 Nops); 36 Nops + MSS are 37
+   entries; 20 two-byte options are 20; the walk is not vacuous on the error side either *)
+Definition W_SEG_NOPS (k : nat) (tail : bytes) : bytes :=
+  mk_tcp 3000 80 1 0 (5 + (Z.of_nat k + zlen tail) / 4) 2 (repeat 1%N k ++ tail ++ [120; 121; 122]%N).
+
+Example C02_option_count_bound_is_attained :
+  (exists h, tcp_parse (W_SEG_NOPS 40 []) = THdr h 0 /\ t_opts h = repeat (1%N, 1%N) 40 /\
+             zlen (t_payload h) = 3) /\
+  (exists h, tcp_parse (W_SEG_NOPS 36 [2; 4; 5; 180]%N) = THdr h 0 /\
+             t_opts h = repeat (1%N, 1%N) 36 ++ [(2%N, 4%N)]) /\
+  (exists h, tcp_parse (W_SEG_NOPS 21 [0; 7; 7]%N) = THdr h 0 /\
+             t_opts h = repeat (1%N, 1%N) 21 ++ [(0%N, 1%N)]) /\
+  (exists h, tcp_parse (W_SEG_NOPS 38 [9; 3]%N) = THdr h 4 /\
+             t_opts h = repeat (1%N, 1%N) 38 ++ [(9%N, 3%N)]) /\
+  wf_bytes (W_SEG_NOPS 40 []) = true /\
+  opt_walk (repeat 1%N 24) (repeat (1%N, 1%N) 24) 0.
+Proof.
+  split; [eexists; vm_compute; repeat split; reflexivity|].
+  split; [eexists; vm_compute; repeat split; reflexivity|].
+  split; [eexists; vm_compute; repeat split; reflexivity|].
+  split; [eexists; vm_compute; repeat split; reflexivity|].
+  split; [vm_compute; reflexivity|].
+  rewrite <- (app_nil_r (repeat 1%N 24)), <- (app_nil_r (repeat (1%N, 1%N) 24)).
+  apply opt_walk_nops. constructor.
+Qed.
 
 (* a two-slot table: fill, refuse, TIME-WAIT reuse, expiry reuse, removal *)
 Example C02_table_ops_nonvacuous :
@@ -272,6 +344,14 @@ Print Assumptions C02_ipv4_accepts_exactly_consistent_lengths.
 Print Assumptions C02_ipv4_payload_is_total_minus_header.
 Print Assumptions C02_tcp_parse_never_panics.
 Print Assumptions C02_tcp_option_walk_terminates.
+Print Assumptions C02_tcp_option_list_is_exactly_the_walk.
+Print Assumptions C02_tcp_option_walk_determines_list_and_error.
+Print Assumptions C02_tcp_option_count_at_most_option_bytes.
+Print Assumptions C02_tcp_nop_run_of_any_length.
+Print Assumptions C02_tcp_nop_run_then_end_of_list.
+Print Assumptions C02_tcp_parsed_options_are_the_walk.
+Print Assumptions C02_tcp_no_options_outside_accepted_header.
+Print Assumptions C02_tcp_parsed_options_at_most_40.
 Print Assumptions C02_tcp_short_segment_is_error.
 Print Assumptions C02_tcp_lone_option_kind_is_error.
 Print Assumptions C02_tcp_option_error_exactly_when.
